@@ -2,4 +2,7 @@
 EXTENDS KPanicModel
 MCMods == {<<>>, <<109, 109>>}
 MCMsgs == {<<>>, <<120>>, <<37, 115, 37>>, <<120, 10, 91>>}
+\* the deeper scope: fewer texts, longer histories
+MCMods1 == {<<109, 109>>}
+MCMsgs2 == {<<>>, <<37, 115, 10>>}
 ====
